@@ -9,6 +9,7 @@ destination and a jump to the call's successor), transitively up to depth 4 and 
 Functions that exist on the pinned tree are never inlined: rules that name them keep their anchors.
 """
 import copy
+import re
 import json
 import os
 
@@ -32,9 +33,9 @@ def load_known_combinators():
     try:
         with open(KNOWN) as fh:
             j = json.load(fh)
-        return {k: set(v) for k, v in j.get("combinators", {}).items()}, set(COMBINATORS) - set(j.get("combinator_table", []))
+        return {k: set(v) for k, v in j.get("combinators", {}).items()}, (set(COMBINATORS) | {CLOSURE_CALL}) - set(j.get("combinator_table", []))
     except (OSError, ValueError, KeyError):
-        return {}, set(COMBINATORS)
+        return {}, set(COMBINATORS) | {CLOSURE_CALL}
 
 
 # --------------------------------------------------------------------------------------------
@@ -101,26 +102,88 @@ def _mv(l):
     return {"k": "move", "pl": {"l": l, "p": []}}
 
 
-def _closure_def(raw, op):
-    """(closure def path, local holding the closure) when operand `op` is a closure value built in this body, else None."""
+def _closure_def(raw, op, depth=0):
+    """(closure def path, local holding the closure) when operand `op` is a closure value built in this body (possibly handed on through
+    plain copies / moves of the closure value), else None."""
     if not op or op.get("k") not in ("move", "copy") or op["pl"]["p"]:
         return None
     l = op["pl"]["l"]
     found = None
+    via = None
     for blk in raw["blocks"]:
         for st in blk["stmts"]:
             if "pl" in st and st["pl"]["l"] == l and not st["pl"]["p"]:
                 rv = st["rv"]
                 if rv.get("k") == "agg" and rv.get("agg") == "closure" and rv.get("def"):
-                    if found is not None:
+                    if found is not None or via is not None:
                         return None
                     found = rv["def"]
+                elif rv.get("k") == "use" and rv["o"].get("k") in ("move", "copy") and not rv["o"]["pl"]["p"] and depth < 4:
+                    if found is not None or via is not None:
+                        return None
+                    via = rv["o"]
                 else:
                     return None
         t = blk["term"]
         if t and t.get("k") == "call" and t.get("dest") and t["dest"]["l"] == l and not t["dest"]["p"]:
             return None
+    if via is not None:
+        return _closure_def(raw, via, depth + 1)
     return (found, l) if found else None
+
+
+CLOSURE_CALL = "hv::closure_call"
+TRACKED = None   # set below: the combinator table plus the closure-call pseudo entry
+
+
+def closure_call_of(raws, raw, t):
+    """closure path when the call is a direct call of a closure of this crate built in this body: `f(x)` with `let f = |x| ..`"""
+    callee = t.get("callee") or ""
+    if not re.search(r"^std::ops::(Fn|FnMut|FnOnce)::call(_mut|_once)?$", callee):
+        return None
+    r = t.get("resolved")
+    if not r or r not in raws or "{closure#" not in r.rsplit("::", 1)[-1] or raws[r].get("kind") not in ("closure",):
+        return None
+    if any(b["term"] and b["term"]["k"] == "yield" for b in raws[r]["blocks"]):
+        return None
+    args = t.get("args") or []
+    if len(args) != 2 or args[0].get("k") not in ("move", "copy") or t.get("target") is None or t.get("dest") is None:
+        return None
+    if args[1].get("k") not in ("move", "copy", "const") or (args[1].get("k") != "const" and args[1]["pl"]["p"]):
+        return None
+    # not recursive
+    if any(b["term"] and b["term"].get("k") == "call" and b["term"].get("resolved") == r for b in raws[r]["blocks"]):
+        return None
+    return r
+
+
+def _inline_closure_call(raws, cur, blk, t, cpath):
+    callee = raws[cpath]
+    line = t.get("line", cur.get("line"))
+    off_l, off_b = len(cur["locals"]), len(cur["blocks"])
+    cur["locals"].extend(copy.deepcopy(callee["locals"]))
+    nbs = _renumber(callee["blocks"], off_l, off_b)
+    for nb in nbs:
+        nb["file"] = callee.get("file")
+        nb["from_closure"] = cpath
+        if nb["term"] and nb["term"]["k"] == "return":
+            nb["term"] = {"k": "goto", "target": -1, "line": nb["term"].get("line", line)}
+    cur["blocks"].extend(nbs)
+    cur["blocks"].append({"cleanup": False, "stmts": [{"pl": copy.deepcopy(t["dest"]), "rv": {"k": "use", "o": _mv(off_l)}, "line": line}],
+                          "term": {"k": "goto", "target": t["target"], "line": line}, "lowered": CLOSURE_CALL})
+    fin = len(cur["blocks"]) - 1
+    for nb in nbs:
+        if nb["term"] and nb["term"]["k"] == "goto" and nb["term"]["target"] == -1:
+            nb["term"]["target"] = fin
+    stmts = [{"pl": {"l": off_l + 1, "p": []}, "rv": {"k": "use", "o": copy.deepcopy(t["args"][0])}, "line": line}]
+    tup = t["args"][1]
+    nparams = (callee.get("argc") or 1) - 1
+    if tup.get("k") != "const":
+        for i in range(nparams):
+            pty = callee["locals"][2 + i].get("ty", "_") if 2 + i < len(callee["locals"]) else "_"
+            stmts.append({"pl": {"l": off_l + 2 + i, "p": []}, "rv": {"k": "use", "o": {"k": "move", "pl": {"l": tup["pl"]["l"], "p": [["f", i, pty]]}}}, "line": line})
+    blk["stmts"] = blk["stmts"] + stmts
+    blk["term"] = {"k": "goto", "target": off_b, "line": line, "inlined": cpath}
 
 
 def lower_body(raws, path, raw, skip):
@@ -134,6 +197,16 @@ def lower_body(raws, path, raw, skip):
         t = blk["term"]
         bi += 1
         if not t or t.get("k") != "call" or blk.get("cleanup"):
+            continue
+        cc = closure_call_of(raws, cur, t) if CLOSURE_CALL not in skip else None
+        if cc is not None:
+            if out is None:
+                out = copy.deepcopy(raw)
+                cur = out
+                blk = cur["blocks"][bi - 1]
+                t = blk["term"]
+            _inline_closure_call(raws, cur, blk, t, cc)
+            done.append(CLOSURE_CALL)
             continue
         name = combinator_of(t)
         if name is None or name in skip or t.get("target") is None or t.get("dest") is None:
